@@ -209,6 +209,7 @@ func runC06(c *core.Check) {
 	if pk == nil {
 		return
 	}
+	deadStateRule(c, pk) // no unexported field is read without a writer (a cache flag never set, a saved value never saved)
 	info := pk.TypesInfo
 	c.Trust("golang.org/x/tools@v0.29.0 go/cfg")
 	sinks := map[string]bool{"handleRecover": true, "handleErr": true, "recoverErr": false}
